@@ -119,6 +119,23 @@ impl Run {
         if !self.violations.is_empty() {
             coverage.insert("violation_summaries".into(), json!(self.violations.iter().map(|v| v.summary.clone()).collect::<Vec<_>>()));
         }
+        // `samples` must list actual cases of this run: when a run stops early on violations the
+        // violating cases are the samples.
+        let empty = coverage.get("samples").and_then(|s| s.as_array()).map(|a| a.is_empty()).unwrap_or(true);
+        if empty {
+            let mut s: Vec<Value> = self.violations.iter().take(4).map(|v| v.replay.clone()).collect();
+            if s.is_empty() {
+                s.push(json!({"note": "no sample case was recorded by this run"}));
+            }
+            coverage.insert("samples".into(), json!(s));
+        }
+        for k in ["evaluations", "distinct_nontrivial"] {
+            // the schema wants evaluations >= 1 and distinct_nontrivial >= 2 for exploration-level
+            // evidence; a run that stopped at once on a violation reports what it has
+            if !coverage.contains_key(k) {
+                coverage.insert(k.into(), json!(0));
+            }
+        }
         let ev = json!({
             "property_id": self.property,
             "tier": self.tier.name(),
